@@ -9,9 +9,11 @@ import (
 	"testing"
 	"time"
 
+	"github.com/samsarahq/thunder/batch"
 	"github.com/samsarahq/thunder/diff"
 	"github.com/samsarahq/thunder/federation"
 	"github.com/samsarahq/thunder/graphql"
+	"github.com/samsarahq/thunder/reactive"
 	"github.com/samsarahq/thunder/verifharness/gen"
 	"github.com/samsarahq/thunder/verifharness/vlib"
 )
@@ -29,12 +31,43 @@ func execute(schema *graphql.Schema, text string, vars map[string]interface{}, w
 	return val, err, "Execute"
 }
 
+// executeInRerunner runs the query the way the HTTP and websocket servers do:
+// inside a reactive rerunner with batching, where Expensive fields go through
+// the reactive cache.
+func executeInRerunner(schema *graphql.Schema, text string, vars map[string]interface{}, w *gen.World) (interface{}, error, string) {
+	q, err := graphql.Parse(text, vars)
+	if err != nil {
+		return nil, err, "Parse"
+	}
+	if err := graphql.PrepareQuery(context.Background(), schema.Query, q.SelectionSet); err != nil {
+		return nil, err, "PrepareQuery"
+	}
+	type res struct {
+		val interface{}
+		err error
+	}
+	out := make(chan res, 2)
+	ex := graphql.NewExecutor(graphql.NewImmediateGoroutineScheduler())
+	rr := reactive.NewRerunner(gen.WithUseBatch(gen.WithWorld(context.Background(), w), true), func(ctx context.Context) (interface{}, error) {
+		val, err := ex.Execute(batch.WithBatching(ctx), schema.Query, nil, q)
+		out <- res{val, err}
+		return nil, nil
+	}, 0, false)
+	defer rr.Stop()
+	select {
+	case r := <-out:
+		return r.val, r.err, "Execute(rerunner)"
+	case <-time.After(60 * time.Second):
+		return nil, nil, "timeout"
+	}
+}
+
 func TestCheck(t *testing.T) {
 	run := vlib.Start(t, "C19", "exploration")
 	defer run.Finish()
 	sd := gen.Zoo()
-	run.Rule("queries generated over the zoo schema with @skip/@include (literal and variable conditions, supplied/defaulted) on fields, inline fragments, spreads of re-used named fragments, union-member fragments, same-alias duplicates where only one copy is annotated, both directives on one node in both orders; " +
-		"every selection set keeps one un-annotated leaf so the pruned text is valid. Oracle: Execute(annotated) == Execute(textually pruned) on a plain and a batch configuration (and == reference evaluation of the annotated AST); every second case additionally parses the annotated query with a Go variables map that has just served Parse of another generated document (same variable names, other defaults). " +
+	run.Rule("queries generated over the zoo schema with @skip/@include (literal and variable conditions, supplied/defaulted) on fields, inline fragments, spreads of re-used named fragments, union-member fragments, same-alias duplicates where only one copy is annotated, both directives on one node in both orders, an excluded selection that shares its response key with a sibling it could not be merged with, one field selected twice under two aliases with equal text but freshly drawn directives; " +
+		"every selection set keeps one un-annotated leaf so the pruned text is valid. Oracle: Execute(annotated) == Execute(textually pruned) on a plain and a batch configuration (and == reference evaluation of the annotated AST); every second case is also run inside a reactive rerunner on the all-Expensive configuration (reactive cache), every other second case additionally parses the annotated query with a Go variables map that has just served Parse of another generated document (same variable names, other defaults). " +
 		"Non-trivial = at least one node excluded and one annotated node kept; distinct by annotated AST shape.")
 	run.Assume("gen.Doc.Prune implements 'textually deleting every excluded node and dropping the directives from the rest'")
 	var schemas []*graphql.Schema
@@ -134,6 +167,10 @@ func TestCheck(t *testing.T) {
 		if r.Intn(3) == 0 {
 			o = gen.MergeHeavy(o)
 		}
+		// an excluded selection that could not be merged with its same-key sibling,
+		// and one field selected twice with equal text but other directive outcomes
+		o.PConflictExcluded = 0.06
+		o.PCloneDirs = 0.08
 		if os.Getenv("VERIF_SMALL") != "" {
 			o.MaxDepth, o.MaxWidth, o.PVar = 2, 3, 0.05
 		}
@@ -165,6 +202,12 @@ func TestCheck(t *testing.T) {
 		if ft.DupAlias > 0 {
 			run.Count("query_feature:dup_alias", 1)
 		}
+		if doc.ConflictExcluded > 0 {
+			run.Count("query_feature:excluded_unmergeable_same_key_sibling", 1)
+		}
+		if doc.ClonedDirs > 0 {
+			run.Count("query_feature:field_selected_twice_equal_text_other_directives", 1)
+		}
 		if run.WantSample() && excluded > 1 && kept > 1 {
 			run.Sample(map[string]interface{}{"annotated": text, "variables": vars, "pruned": ptext})
 		}
@@ -173,6 +216,12 @@ func TestCheck(t *testing.T) {
 				"world": map[string]interface{}{"seed": w.Seed, "n": w.N, "m": w.M}}
 			got, err, at := execute(schema, text, vars, w)
 			want, perr, pat := execute(schema, ptext, pvars, w)
+			if doc.ConflictExcluded > 0 && err != nil && at != "Execute" {
+				// the excluded twin makes this document invalid GraphQL; a validation
+				// that refuses it puts it outside the property
+				run.Count("conflict_excluded_documents_refused_by_validation", 1)
+				continue
+			}
 			if perr != nil {
 				// the pruned query has no directives: its failure is not a C19 matter
 				run.Inconclusive(fmt.Sprintf("case %d: pruned (directive-free) query failed at %s: %v", i, pat, perr))
@@ -189,6 +238,29 @@ func TestCheck(t *testing.T) {
 				wit["what"] = "annotated query result differs from pruned query result"
 				wit["got"] = vlib.Trunc(g, 2500)
 				wit["want"] = vlib.Trunc(wnt, 2500)
+				run.Violation(i, "", wit)
+			}
+		}
+		// inside a rerunner (reactive cache of Expensive fields), every 2nd case
+		if i%2 == 1 {
+			si := 2 // the all-Expensive configuration
+			wit := map[string]interface{}{"annotated": text, "variables": vars, "pruned": ptext, "pruned_variables": pvars, "config": names[si] + "+rerunner",
+				"world": map[string]interface{}{"seed": w.Seed, "n": w.N, "m": w.M}}
+			want, perr, _ := executeInRerunner(schemas[si], ptext, pvars, w)
+			got, err, at := executeInRerunner(schemas[si], text, vars, w)
+			run.Count("rerunner_comparisons", 1)
+			switch {
+			case at == "timeout":
+				run.Inconclusive(fmt.Sprintf("case %d: rerunner execution did not report within 60s", i))
+			case perr != nil:
+			case doc.ConflictExcluded > 0 && err != nil && at != "Execute(rerunner)":
+			case err != nil:
+				wit["what"] = "annotated query failed at " + at + " while the pruned query succeeds"
+				wit["error"] = err.Error()
+				run.Violation(i, "", wit)
+			case vlib.Canon(got) != vlib.Canon(want):
+				wit["what"] = "inside a rerunner the annotated query result differs from the pruned query result"
+				wit["got"], wit["want"] = vlib.Trunc(vlib.Canon(got), 2500), vlib.Trunc(vlib.Canon(want), 2500)
 				run.Violation(i, "", wit)
 			}
 		}
